@@ -47,8 +47,11 @@ CHECKS["C06"] = dict(level="model_checking", ref="DESIGN.md §4 C06, §9",
          "model-checked exhaustively for 2 processes x 2 names x 2-3 registrars x one Kill; an edge cover of each state graph is replayed on a real node and the "
          "recorded executions are validated by TLC: one winner per name and per process, at quiescence a name resolves (probe message) to nobody or to a live "
          "process that owns it - never to a terminated one. Identifier generators: the bit slicing of MakeRef is measured on the real node, its scaled design is "
-         "checked by TLC (spec IdGen), and 600k-1.2M references, thousands of pids and aliases are checked for repetition on the real node.",
-    note=RACE_NOTE + " Sequential registry histories (aliases, events, relations of a terminated requester) are not yet bound.",
+         "checked by TLC (spec IdGen), and 600k-1.2M references, thousands of pids and aliases are checked for repetition on the real node. Sequential ownership "
+         "histories (create / delete aliases at every position, register / unregister name and events, link / monitor / unlink, then kill / normal / abnormal exit; "
+         "systematic and seeded random) are run on a real node and judged by TLC with the reference RegistryH: kept aliases intact, everything the process owned is "
+         "released at termination and no relation mentions it any more.",
+    note=RACE_NOTE,
     tech="TLA+ specs Registry, IdGen + TLC; edge-cover plans replayed under the controlling scheduler; traces validated by TLC (Registry_Trace)")
 
 CHECKS["C07"] = dict(level="model_checking", ref="DESIGN.md §4 C07, §9",
